@@ -364,6 +364,8 @@ def factsTag (f : String) : List String :=
   ((f.drop 4).toString.splitOn ",").flatMap fun x =>
     -- (C06: "Subscribe returns the subscriber's own … error if one occurred"; C17: "… and gets the error from Subscribe")
     if x.startsWith "SUBSCRIBE-DROPPED-JOES-VERDICT" then ["C06:" ++ x, "C17:" ++ x] else
+    -- (the same two clauses: the error a Subscribe call returns is that subscriber's own, not another subscriber's)
+    if x.startsWith "SUBSCRIBE-RETURNED-ANOTHERS-ERROR" then ["C06:" ++ x, "C17:" ++ x] else
     -- (C03 as well: a subscriber whose Subscribe call has returned is no longer registered — "never to any other subscriber")
     if x.startsWith "CALL-AFTER-RETURN" then ["C06:" ++ x, "C03:" ++ x] else
     -- (C06: "Subscribe returns … nil when it ended through cancellation or shutdown"; C07: every pending Subscribe returns)
